@@ -79,6 +79,9 @@ type Summary struct {
 	Hashes      map[string]string  `json:"hashes,omitempty"`
 	Replay      *Verdict           `json:"replay,omitempty"`
 	Extra       map[string]float64 `json:"extra,omitempty"`
+	// OwnProcess: specs the planner wants executed each in a process of its own (reported by worker 0;
+	// the supervisor starts one worker per spec in mode "one")
+	OwnProcess []RunSpec `json:"own_process,omitempty"`
 }
 
 type ReplayFile struct {
@@ -108,6 +111,9 @@ type HistoryRef struct {
 	UpTo     int     `json:"plan_index"`
 	Original RunSpec `json:"unminimised_spec"`
 }
+
+// ownProcessSpecs: filled by a planner with specs that have to be the first thing a process does.
+var ownProcessSpecs = map[string][]RunSpec{}
 
 // histRef is set by workerRun for the run at hand (nil in every other mode).
 var histRef *HistoryRef
@@ -139,6 +145,8 @@ func TestWorker(t *testing.T) {
 		workerHashes(t, job, sum)
 	case "free":
 		workerFree(t, job, sum)
+	case "one":
+		workerOne(t, job, sum)
 	default:
 		t.Fatalf("unknown mode %q", job.Mode)
 	}
@@ -237,6 +245,9 @@ func workerRun(t *testing.T, job Job, sum *Summary) {
 		return
 	}
 	sum.Planned = len(plan)
+	if job.Worker == 0 {
+		sum.OwnProcess = ownProcessSpecs[job.Property]
+	}
 	deadline := time.Time{}
 	if job.BudgetS > 0 {
 		deadline = time.Now().Add(time.Duration(job.BudgetS) * time.Second)
@@ -295,12 +306,20 @@ func workerRun(t *testing.T, job Job, sum *Summary) {
 				// the standard library), or the simulator itself is broken. The last is what the determinism
 				// self-test rules out on the unchanged tree; here it is told apart from the first by a third run.
 				v3 := exec1(t, specWithChoices(spec, v))
+				verdictChanges := false
+				for _, vr := range []*Verdict{v, v2, v3} {
+					verdictChanges = verdictChanges || vr.Bad() && !vr.Infra()
+				}
 				switch {
 				case v3.LogHash == v2.LogHash && v3.Sig == v2.Sig:
 					sum.Probes["repetition-differs:process-level-state-in-the-product"]++
 				case job.Property == "C14":
 					// C14 is the property that says this must not happen
 					sum.Probes["repetition-differs:uncontrolled-choice-in-the-product"]++
+				case verdictChanges:
+					// state in the product that does not settle (a cursor that wraps around, a pool that is
+					// refilled): the repetitions that violate the property are reported as such below
+					sum.Probes["repetition-differs:verdict-changes-from-run-to-run"]++
 				default:
 					sum.DetMismatch = append(sum.DetMismatch, fmt.Sprintf("plan[%d]: %s/%s vs %s/%s vs %s/%s", idx, v.LogHash, v.Sig, v2.LogHash, v2.Sig, v3.LogHash, v3.Sig))
 				}
@@ -495,11 +514,16 @@ func workerReplay(t *testing.T, job Job, sum *Summary) {
 				exec1(t, spec)
 				n++
 			}
+			// (each candidate up to three times in a row: the violation may have been found by the
+			// in-batch repetition of a run, i.e. in the state the same run had left behind)
+		cands:
 			for _, cand := range []RunSpec{h.Original, rf.Spec} {
-				if hv := exec1(t, cand); hv.Sig == rf.Sig {
-					v = hv
-					mode = fmt.Sprintf("process-history:%d", n)
-					break
+				for rep := 0; rep < 3; rep++ {
+					if hv := exec1(t, cand); hv.Sig == rf.Sig {
+						v = hv
+						mode = fmt.Sprintf("process-history:%d", n)
+						break cands
+					}
 				}
 			}
 		}
@@ -509,6 +533,35 @@ func workerReplay(t *testing.T, job Job, sum *Summary) {
 	sum.Hashes = map[string]string{"recorded_sig": rf.Sig, "recorded_hash": rf.LogHash, "replay_mode": mode}
 	if v.Infra() {
 		sum.Infra = append(sum.Infra, v.Msg)
+	}
+}
+
+// workerOne executes the single spec in job.File and nothing else: no planning, no baselines - whatever
+// the spec runs first is the first thing this process ever analyses.
+func workerOne(t *testing.T, job Job, sum *Summary) {
+	raw, err := os.ReadFile(job.File)
+	if err != nil {
+		sum.Infra = append(sum.Infra, err.Error())
+		return
+	}
+	var spec RunSpec
+	if err := json.Unmarshal(raw, &spec); err != nil {
+		sum.Infra = append(sum.Infra, err.Error())
+		return
+	}
+	sum.Planned = 1
+	v := exec1(t, spec)
+	sum.account(spec, v)
+	if v.Infra() {
+		sum.Infra = append(sum.Infra, spec.Workload+": "+v.Msg)
+		return
+	}
+	if v.Bad() {
+		rs := specWithChoices(spec, v)
+		rec := ViolationRec{Sig: v.Sig, Class: v.Class, Clause: v.Clause, Msg: v.Msg, Count: 1, Spec: rs, LogHash: v.LogHash}
+		histRef = nil
+		rec.Replay = writeReplay(job.ReplayDir, job.Property, rs, v, 0, 1000+job.Worker)
+		sum.Violations = append(sum.Violations, rec)
 	}
 }
 
